@@ -553,6 +553,36 @@ def resolve(e0: bool, e1: bool, e2: bool, e3: bool, e4: bool, e5: bool, s: int, 
     return _res(ok)
 
 
+class Rec2(Rec):
+    """a second template class (the text-mode file class, say)"""
+
+
+def bound(k0: int, k1: int, k2: int) -> bool:
+    """
+    pre: 0 <= k0 < 4 and 0 <= k1 < 4 and 0 <= k2 < 4
+    post: _
+    """
+    # three requests for one name through one loader, each for one of two template classes, either directly
+    # (load(name, cls)) or through a bound loader (bind(cls)(name), what load: expressions use): every result
+    # is of the class asked for, and one (name, class) is one instance
+    STATE['exists'] = lambda p: True
+    loader = ld.TemplateLoader(search_path=['/a'], default_extension='.pt')
+    ok = True
+    seen = []
+    for k in (k0, k1, k2):
+        cls = Rec2 if k % 2 else Rec
+        if k >= 2:
+            r = loader.bind(cls)('x.pt')
+        else:
+            r = loader.load('x.pt', cls)
+        ok = ok and type(r) is cls
+        for c2, r2 in seen:
+            if c2 is cls:
+                ok = ok and r2 is r
+        seen.append((cls, r))
+    return _res(ok)
+
+
 def zpt_loads(e0: bool, e1: bool, e2: bool, e3: bool, e4: bool, e5: bool, e6: bool, e7: bool,
               e8: bool, e9: bool, e10: bool, e11: bool, s0: int, s1: int, s2: int, f0: bool, f1: bool, f2: bool) -> bool:
     """
